@@ -9,6 +9,10 @@ VK_NOTE = ("trusted: the virtual kernel model (vk/kernel.hpp, vk/ops.hpp; bound 
            "oracle; the programs are the unmodified binaries built from /repo's working tree by its own Makefile")
 DAEMON_NOTE = VK_NOTE + "; spawners are controller scripts on the daemon's pipes (their own code is covered by C09/C11/C18), time is a virtual clock"
 CHECKS = {
+ "C07": dict(engine="VK", category="fault_enumeration", design_ref="4/C07",
+             technique="exhaustive enumeration, on the real qmail-smtpd/qmail-qmtpd/qmail-qmqpd with the real qmail.c under the virtual kernel, of every queue-program exit status 0..255 (+82 texts, crash, real qmail-queue), a client disconnect after every byte, size/hop/address-length/NUL/framing boundary cases, multi-message QMTP connections and every hostile peer string up to length 3-4; acknowledgement compared with what a recording queue stand-in committed",
+             text="'Never say 250/K unless queued' must hold for every failure point; every exit status, every cut point and every boundary case is executed on the real daemons and the acknowledgement is compared with the bytes the queue program actually committed.",
+             note=VK_NOTE + "; the queue program is a stand-in following qmail-queue(8)'s abort-on-incomplete-envelope rule (validated against the real qmail-queue in one family)"),
  "C08": dict(engine="SEQ", category="model_checking", design_ref="4/C08",
              technique="explicit-state breadth-first search over SMTP command sequences on the real qmail-smtpd.c transition function (commands() loop, addrparse, rcpthosts, constmap, cdb_seek), de-duplicated on the server's own transaction state, for 90 configurations of rcpthosts/morercpthosts.cdb/badmailfrom/localiphost/RELAYCLIENT, against a reply-driven reference transaction machine and an independent policy function",
              text="Open-relay and cross-transaction leakage bugs are reachable only through particular command orders and address spellings; all command sequences up to the depth bound (all reachable transaction states) are executed for every configuration and each reply and each submitted envelope is compared with the reference.",
